@@ -446,6 +446,9 @@ Tiff::set(const struct StorageProperties* settings) noexcept
             CHECK(validate_json(settings->external_metadata_json.str,
                                 settings->external_metadata_json.nbytes));
             external_metadata_ = string(settings->external_metadata_json.str);
+        } else {
+            // no metadata in this configuration: don't carry over the old one
+            external_metadata_.clear();
         }
     }
     pixel_scale_um_ = settings->pixel_scale_um;
